@@ -1917,7 +1917,8 @@ int flatcc_builder_get_level(flatcc_builder_t *B)
 void flatcc_builder_set_max_level(flatcc_builder_t *B, int max_level)
 {
     B->max_level = max_level;
-    if (B->limit_level < B->max_level) {
+    /* limit_level counts the frames that are allocated: it can be capped, not raised. */
+    if (B->max_level > 0 && B->limit_level > B->max_level) {
         B->limit_level = B->max_level;
     }
 }
